@@ -355,11 +355,11 @@ def main():
         for g in l["extra_globals"]:
             if g not in extra: extra.append(g)
     mt, gt = build_fenv(items, classes, extra)
-    nshard = max(1, min(12, (len(lemmas) + 7) // 8))
+    nshard = max(1, min(14, (len(lemmas) + 2) // 3))
     shards = [lemmas[i::nshard] for i in range(nshard)]
     from concurrent.futures import ThreadPoolExecutor
     timeout = 300 if a.tier == "quick" else 900
-    with ThreadPoolExecutor(max_workers=12) as ex:
+    with ThreadPoolExecutor(max_workers=14) as ex:
         res = list(ex.map(lambda s: run_shard(a.builddir, a.prop, s[0], s[1], mt, gt, timeout), enumerate(shards)))
     mism = [m for r in res for m in r]
     if skipped:
